@@ -59,6 +59,7 @@ func checkC10(c *Ctx) {
 	// ---- R6 in-place compaction
 	checkInPlaceCompaction(c, "C10.R6.no-inplace-filter", gen)
 	checkOperationCopy(c, gen)
+	checkRenderedBeforePlanning(c, "C10.R7.rendered-before-planning", gen)
 }
 
 func checkReadableSpec(c *Ctx, gen *packages.Package) {
@@ -458,4 +459,142 @@ func checkEmbeddedStores(c *Ctx, rule string, gen *packages.Package) {
 		}
 	}
 
+}
+
+
+// checkRenderedBeforePlanning: planning models and operations writes into the loaded document
+// (definitions for anonymous types — makeNewStruct — and the in-place removal of validations
+// that do not fit the type — guardValidations → SetValidations). The documents that get
+// embedded must therefore be rendered before the first call of makeCodegenApp that reaches
+// such a writer through the package's static call graph.
+func checkRenderedBeforePlanning(c *Ctx, rule string, gen *packages.Package) {
+	c.Rule(rule, "makeCodegenApp marshals Spec() before its first call that reaches (static call graph of the generator package) a function storing into spec.Definitions or calling SetValidations on a spec value", 1)
+	info := gen.TypesInfo
+	fd := load.FuncDecl(gen, "appGenerator.makeCodegenApp")
+	if fd == nil {
+		c.Anchor(rule, "generator.appGenerator.makeCodegenApp", "not found")
+		return
+	}
+	decls := map[*types.Func]*ast.FuncDecl{}
+	for _, d := range load.AllFuncs(gen) {
+		if f, ok := info.Defs[d.Name].(*types.Func); ok {
+			decls[f] = d
+		}
+	}
+	isSpecType := func(t types.Type) bool {
+		for {
+			if p, ok := t.(*types.Pointer); ok {
+				t = p.Elem()
+				continue
+			}
+			break
+		}
+		return strings.HasPrefix(goan.NamedPath(t), "github.com/go-openapi/spec.")
+	}
+	writes := func(d *ast.FuncDecl) string {
+		why := ""
+		ast.Inspect(d.Body, func(n ast.Node) bool {
+			switch x := n.(type) {
+			case *ast.AssignStmt:
+				for _, l := range x.Lhs {
+					switch lx := l.(type) {
+					case *ast.IndexExpr:
+						if goan.NamedPath(info.TypeOf(lx.X)) == "github.com/go-openapi/spec.Definitions" {
+							why = "stores into " + goan.ExprString(lx.X)
+						}
+					case *ast.SelectorExpr:
+						if lx.Sel.Name == "Definitions" && isSpecType(info.TypeOf(lx.X)) {
+							why = "stores into " + goan.ExprString(lx)
+						}
+					}
+				}
+			case *ast.CallExpr:
+				if se, ok := x.Fun.(*ast.SelectorExpr); ok && se.Sel.Name == "SetValidations" {
+					why = "calls " + goan.ExprString(se)
+				}
+			}
+			return true
+		})
+		return why
+	}
+	seeds := map[*types.Func]string{}
+	for f, d := range decls {
+		if w := writes(d); w != "" {
+			seeds[f] = w
+		}
+	}
+	if len(seeds) < 2 {
+		c.Unk(rule, "writers into the loaded document", "", fmt.Sprintf("%d writer functions found (expected makeNewStruct and guardValidations)", len(seeds)))
+		return
+	}
+	// reach[f] = a seed reachable from f
+	memo := map[*types.Func]string{}
+	var reach func(f *types.Func, seen map[*types.Func]bool) string
+	reach = func(f *types.Func, seen map[*types.Func]bool) string {
+		if w, ok := seeds[f]; ok {
+			return f.Name() + " (" + w + ")"
+		}
+		if r, ok := memo[f]; ok {
+			return r
+		}
+		d := decls[f]
+		if d == nil || seen[f] {
+			return ""
+		}
+		seen[f] = true
+		res := ""
+		ast.Inspect(d.Body, func(n ast.Node) bool {
+			if res != "" {
+				return false
+			}
+			if call, ok := n.(*ast.CallExpr); ok {
+				if cal := goan.Callee(info, call); cal != nil && cal.Pkg() == gen.Types {
+					if r := reach(cal, seen); r != "" {
+						res = cal.Name() + " → " + r
+						if _, isSeed := seeds[cal]; isSeed {
+							res = r
+						}
+					}
+				}
+			}
+			return true
+		})
+		memo[f] = res
+		return res
+	}
+	var firstWriter token.Pos
+	firstWhy := ""
+	ast.Inspect(fd.Body, func(n ast.Node) bool {
+		if call, ok := n.(*ast.CallExpr); ok {
+			if cal := goan.Callee(info, call); cal != nil && cal.Pkg() == gen.Types {
+				if r := reach(cal, map[*types.Func]bool{}); r != "" && (!firstWriter.IsValid() || call.Pos() < firstWriter) {
+					firstWriter, firstWhy = call.Pos(), cal.Name()+" → "+r
+				}
+			}
+		}
+		return true
+	})
+	if !firstWriter.IsValid() {
+		c.Unk(rule, "generator.appGenerator.makeCodegenApp › first planning call", c.posOf(gen, fd.Pos()), "no call reaching a writer found")
+		return
+	}
+	for _, doc := range []string{"Spec"} { // OrigSpec() is a separate object that planning never reaches
+		var pos token.Pos
+		ast.Inspect(fd.Body, func(n ast.Node) bool {
+			call, ok := n.(*ast.CallExpr)
+			if !ok || len(call.Args) == 0 {
+				return true
+			}
+			if fn := goan.Callee(info, call); fn == nil || !strings.HasPrefix(goan.CalleeName(fn), "encoding/json.Marshal") {
+				return true
+			}
+			if inner, ok := ast.Unparen(call.Args[0]).(*ast.CallExpr); ok && goan.LastSel(inner.Fun) == doc && goan.LastSel(inner.Fun.(*ast.SelectorExpr).X) == "SpecDoc" {
+				pos = call.Pos()
+			}
+			return true
+		})
+		c.Check(pos.IsValid() && pos < firstWriter, rule, "generator.appGenerator.makeCodegenApp › "+doc+"() is rendered before planning", c.posOf(gen, pos),
+			"marshalled before "+c.posOf(gen, firstWriter)+" ("+firstWhy+")",
+			fmt.Sprintf("SpecDoc.%s() is marshalled at %s, after the call at %s which reaches %s: what planning writes into the loaded document (definitions of anonymous types replacing user definitions of the same name, validations removed in place) ends up in the embedded document", doc, c.posOf(gen, pos), c.posOf(gen, firstWriter), firstWhy))
+	}
 }
